@@ -8,7 +8,7 @@ CFG = {
     "rule": "random configurations of 0-3 targets x 0-4 recording generators x 0-4 types: per-target and per-generator filters, namer overrides (nil, overriding a context namer, private names), colliding file names, empty/unknown/conflicting file types, failing file assembly, vars/consts/body/imports contributions, a quarter of the configurations with failing hooks; observable = the exact sequence of hook calls with the Order and the Namers each hook saw, the files handed to the file type, the error class; each configuration is run target by target and once through ExecutePackages/ExecuteTargets; non-trivial = input longer than 12 characters",
     "exhaustive": [],
     "modelled": "Context.ExecutePackages/ExecutePackage/executeBody/filteredBy/addNameSystems (generator/execute.go), ExecuteTargets/ExecuteTarget/executeBody (v2/generator/execute.go). Generators, targets and file types are data (recording implementations in the harness). os.MkdirAll and the real file types are exercised in C09/C10/C13, not here.",
-    "assumptions": ["when a file type is not registered, which of the target's other files were assembled first is left unspecified (Go map order); only the error is compared"],
+    "assumptions": [],
     "manifest": {
         "text": "Coq model of the execution loops with generators/targets as data; theorems: the hook trace equals the documented protocol for every target and generator (filter on exactly the target-accepted types in canonical order, then namers, vars, consts, init, one GenerateType per type accepted by both filters, finalize, imports), namers returned by a generator are visible to it alone, generators naming one file contribute in generator order with the first header, file-type errors. Tied to /repo each run by driving the real ExecutePackage(s)/ExecuteTarget(s) with recording generators and diffing trace, files and error class with the extracted model",
         "note": "trusted: Coq kernel, extraction, OCaml driver, Go harness (recording Generator/Target/FileType implementations and its error-text classifier); Go code modelled, not verified",
